@@ -85,6 +85,8 @@ type loopInfo struct {
 	blocks  map[*ssa.BasicBlock]bool
 	cells   []*ssa.Alloc
 	bodyPos token.Pos
+	rangeKey types.Object // range loops: the key variable (denotes hidden index + 1 in this loop's invariants)
+	rangeIdx *ssa.Alloc   // range loops: the hidden index cell
 }
 
 type fnLoops struct {
@@ -314,6 +316,13 @@ func (w *World) loopsOf(fn *ssa.Function) *fnLoops {
 	sort.Slice(fl.list, func(i, j int) bool { return fl.list[i].header.Index < fl.list[j].header.Index })
 	// source order of loop statements; goto-loops are matched through their label
 	var astLoops []token.Pos
+	var astKeys []types.Object
+	var tinfo *types.Info
+	if fn.Pkg != nil {
+		if p := w.pkgByPath[fn.Pkg.Pkg.Path()]; p != nil {
+			tinfo = p.TypesInfo
+		}
+	}
 	labels := map[string]token.Pos{}
 	if syn := fn.Syntax(); syn != nil {
 		var body *ast.BlockStmt
@@ -330,8 +339,17 @@ func (w *World) loopsOf(fn *ssa.Function) *fnLoops {
 					return false
 				case *ast.ForStmt:
 					astLoops = append(astLoops, x.Body.Lbrace+1)
+					astKeys = append(astKeys, nil)
 				case *ast.RangeStmt:
 					astLoops = append(astLoops, x.Body.Lbrace+1)
+					var key types.Object
+					if id, ok := x.Key.(*ast.Ident); ok && tinfo != nil && id.Name != "_" {
+						key = tinfo.Defs[id]
+						if key == nil {
+							key = tinfo.Uses[id]
+						}
+					}
+					astKeys = append(astKeys, key)
 				case *ast.LabeledStmt:
 					labels[x.Label.Name] = x.Stmt.End()
 				}
@@ -353,6 +371,17 @@ func (w *World) loopsOf(fn *ssa.Function) *fnLoops {
 		if len(structured) == len(astLoops) {
 			for i, li := range structured {
 				li.bodyPos = astLoops[i]
+				if astKeys[i] != nil && strings.HasPrefix(li.header.Comment, "rangeindex") {
+					// the hidden index cell is the first cell loaded in the header
+					for _, in := range li.header.Instrs {
+						if u, ok := in.(*ssa.UnOp); ok && u.Op == token.MUL {
+							if a, ok := u.X.(*ssa.Alloc); ok && a.Comment == "rangeindex" {
+								li.rangeKey, li.rangeIdx = astKeys[i], a
+							}
+							break
+						}
+					}
+				}
 			}
 		}
 	}
